@@ -140,6 +140,9 @@ class ManagerWrapper:
         return getattr(self.real, name)
 
 
+_gates = [0]
+
+
 class PoolWrapper:
 
     def __init__(self, real, describe):
@@ -158,11 +161,22 @@ class PoolWrapper:
         describe = self.describe
 
         delay = float(os.environ.get('VERIF_MAIN_DELAY_MS', '0')) / 1000.0
+        gate = os.environ.get('VERIF_MAIN_GATE')
 
         def gen():
             for r in it:
                 d = describe(r)
                 emit('recv', **d)
+                if gate and d.get('ok'):
+                    # the main loop is held between receiving a success and
+                    # acting on it until the scheduler of the replay opens
+                    # the gate (lib/hreplay.py: "late" completions)
+                    _gates[0] += 1
+                    emit('gate_wait', n=_gates[0])
+                    t0 = time.time()
+                    while not os.path.exists(f'{gate}.{_gates[0]}') and \
+                            time.time() - t0 < 90:
+                        time.sleep(0.005)
                 if delay and d.get('ok'):
                     # schedule perturbation (a pure delay of the main loop
                     # between receiving a success and acting on it): the
